@@ -1,5 +1,6 @@
 """C09 - later transactions never change results already computed for earlier periods."""
 import ast
+import re
 import z3
 from pyvc.driver import fn, lemma, custom
 from pyvc import spec as S, vals as V
@@ -78,26 +79,46 @@ def engine_initialize(pr):
     `create_lot_candidates(<the engine's lot list>, <the engine's partial-amount map>)` and handed to the year tree as it is - nothing in
     initialize advances a window (`set_to_index`, `set_from_index`), writes a partial amount or touches a heap; each lot is appended to the list
     and inserted in the lot tree under its own key with its own index; the only call site of initialize passes iterators of the two sets."""
+    from pyvc import astcheck as A
     f = pr.tree.func("rp2.accounting_engine.AccountingEngine.initialize")
     calls = [n for n in ast.walk(f.node) if isinstance(n, ast.Call)]
     names = [getattr(c.func, "attr", getattr(c.func, "id", "")) for c in calls]
     forbidden = sorted(set(names) & {"set_to_index", "set_from_index", "set_partial_amount", "clear_partial_amount", "add_selected_lot_to_heap", "heappush", "heappop",
                                      "_set_partial_amount", "add_acquired_lot"})
-    created = [ast.unparse(c) for c in calls if getattr(c.func, "attr", "") == "create_lot_candidates"]
-    ok_created = len(created) == 1 and created[0].endswith("create_lot_candidates(self.__acquired_lot_list, self.__acquired_lot_2_partial_amount)")
-    ins = [c for c in calls if getattr(c.func, "attr", "") == "insert_node"]
-    direct = any(len(c.args) == 2 and isinstance(c.args[1], ast.Call) and getattr(c.args[1].func, "attr", "") == "create_lot_candidates" for c in ins)
-    lot_ins = [ast.unparse(c) for c in ins if "acquired_lot_avl" in ast.unparse(c.func)]
-    ok_lot = (len(lot_ins) == 1 and "_get_avl_node_key(acquired_lot.timestamp, acquired_lot.internal_id)" in lot_ins[0] and "_AcquiredLotAndIndex(acquired_lot, index)" in lot_ins[0]
-              and "self.__acquired_lot_list.append(acquired_lot)" in ast.unparse(f.node) and ast.unparse(f.node).count("index += 1") == 1)
-    te = pr.tree.func("rp2.tax_engine._create_unfiltered_gain_and_loss_set")
-    src = ast.unparse(te.node)
-    ok_site = ("iter(cast(Iterable[AbstractTransaction], unfiltered_taxable_event_set))" in src and "iter(cast(Iterable[InTransaction], input_data.unfiltered_in_transaction_set))" in src
-               and "new_accounting_engine.initialize(taxable_event_iterator, acquired_lot_iterator)" in src)
-    return [VC(f.qualname, "establishes", "candidates_are_handed_to_the_year_tree_as_created", [], z3.BoolVal(not forbidden and ok_created and direct), f.loc(), 0,
-               note=f"forbidden calls={forbidden} created={created} direct={direct}"),
-            VC(f.qualname, "establishes", "each_lot_is_listed_and_keyed_with_its_own_index", [], z3.BoolVal(ok_lot), f.loc(), 0, note=str(lot_ins)),
-            VC(te.qualname, "establishes", "initialize_is_given_iterators_of_the_event_set_and_the_lot_set", [], z3.BoolVal(ok_site), te.loc(), 0)]
+    # abbreviations (names bound once, in the whole function or inside one of its while loops) are inlined before the comparison
+    env = dict(A._single_assignments(list(f.node.body), exclude={a.arg for a in f.node.args.args}))
+    for lp in [n for n in ast.walk(f.node) if isinstance(n, ast.While)]:
+        env.update(A._single_assignments(list(lp.body), exclude={a.arg for a in f.node.args.args}))
+    lot_var = next((k for k, v in env.items() if ast.unparse(v) == "next(acquired_lot_iterator)"), None)
+    env_noiter = {k: v for k, v in env.items() if k != lot_var}
+    n = lambda e: A.norm_expr(e, env_noiter)
+    ins = [c for c in calls if getattr(c.func, "attr", "") == "insert_node" and len(c.args) == 2]
+    cand_ins = [c for c in ins if "years_2_lot_candidates" in ast.unparse(c.func)]
+    created = [n(c.args[1]) for c in cand_ins]
+    ok_created = len(cand_ins) == 1 and created[0].endswith(".create_lot_candidates(self.__acquired_lot_list, self.__acquired_lot_2_partial_amount)") \
+        and names.count("create_lot_candidates") == 1
+    lot_ins = [c for c in ins if "acquired_lot_avl" in ast.unparse(c.func)]
+    ok_lot, note_lot = False, ""
+    if len(lot_ins) == 1 and lot_var is not None:
+        key, val = n(lot_ins[0].args[0]), n(lot_ins[0].args[1])
+        m = re.fullmatch(r"_AcquiredLotAndIndex\(" + re.escape(lot_var) + r", (\w+)\)", val)
+        note_lot = f"key={key} value={val}"
+        if m and f"self._get_avl_node_key({lot_var}.timestamp, {lot_var}.internal_id)" in key:
+            idx = m.group(1)
+            stores = [x for x in ast.walk(f.node) if isinstance(x, (ast.AugAssign, ast.Assign, ast.AnnAssign))
+                      and any(isinstance(t, ast.Name) and t.id == idx for t in (x.targets if isinstance(x, ast.Assign) else [x.target]))]
+            shapes = sorted(ast.unparse(A._Canon().visit(ast.parse(ast.unparse(x)).body[0])) if not isinstance(x, ast.AnnAssign) else f"{idx} = {ast.unparse(x.value)}" for x in stores)
+            ok_lot = shapes == sorted([f"{idx} = 0", f"{idx} = {idx} + 1"]) and f"self.__acquired_lot_list.append({lot_var})" in ast.unparse(f.node)
+            note_lot += f" index stores={shapes}"
+    te = A.Fn(pr.tree, "rp2.tax_engine._create_unfiltered_gain_and_loss_set")
+    ok_site = bool(te) and te.has("taxable_event_iterator: Iterator[AbstractTransaction] = iter(cast(Iterable[AbstractTransaction], unfiltered_taxable_event_set))",
+                                  "acquired_lot_iterator: Iterator[InTransaction] = iter(cast(Iterable[InTransaction], input_data.unfiltered_in_transaction_set))",
+                                  "new_accounting_engine.initialize(taxable_event_iterator, acquired_lot_iterator)")
+    tef = pr.tree.func("rp2.tax_engine._create_unfiltered_gain_and_loss_set")
+    return [VC(f.qualname, "establishes", "candidates_are_handed_to_the_year_tree_as_created", [], z3.BoolVal(not forbidden and ok_created), f.loc(), 0,
+               note=f"forbidden calls={forbidden} inserted={created}"),
+            VC(f.qualname, "establishes", "each_lot_is_listed_and_keyed_with_its_own_index", [], z3.BoolVal(ok_lot), f.loc(), 0, note=note_lot),
+            VC(tef.qualname, "establishes", "initialize_is_given_iterators_of_the_event_set_and_the_lot_set", [], z3.BoolVal(ok_site), tef.loc(), 0)]
 
 
 def computed_data_call_sites(pr):
